@@ -754,6 +754,11 @@ func (env *ExprEnv) resolveType(e ast.Expr) types.Type {
 		return env.resolveType(e.X)
 	case *ast.IndexExpr:
 		return env.resolveType(e.X)
+	case *ast.InterfaceType:
+		// anonymous interface literal, e.g. interface{ Unwrap() error }
+		if tv, err := types.Eval(token.NewFileSet(), env.pkgTypes(), token.NoPos, types.ExprString(e)); err == nil {
+			return tv.Type
+		}
 	case *ast.Ident:
 		if p := env.pkgTypes(); p != nil {
 			if tn, ok := p.Scope().Lookup(e.Name).(*types.TypeName); ok {
